@@ -772,6 +772,30 @@ fn c02(r: &Runner) {
     for bits in [0usize, 1, 7, 64, 65, 128, 129, 256, 257] {
         long_seqs(r, "long products", bits, PRODUCTS, true);
     }
+    // GIANT width: balanced operands of every significant length around the sizes where a sub-quadratic multiplication
+    // would split (odd and even, halves odd and even), dense limbs
+    if !SWEEP {
+        let bits = 65_536usize;
+        let n = nlimbs(bits);
+        let g = golden(600);
+        let lens: Vec<usize> = vec![15, 16, 17, 31, 32, 33, 34, 35, 47, 63, 64, 65, 66, 67, 70, 99, 100, 127, 128, 129, 130, 255, 256, 257, 511, 512];
+        r.universe(&format!("GIANT U{bits}: dense balanced operands with {} significant lengths 15..=512 limbs", lens.len()), bits, lens.len(), |i, l| {
+            let len = lens[i];
+            for salt in [0usize, 13] {
+                let mut a = vec![0u64; n];
+                let mut b = vec![0u64; n];
+                for k in 0..len {
+                    a[k] = g[(k + salt) % 600] | 1;
+                    b[k] = g[(k + salt + 301) % 600] | 1;
+                }
+                l.states(1);
+                for &op in &[Op::wrapping_mul, Op::overflowing_mul, Op::mul_rr, Op::mul_assign_v] {
+                    exec(l, bits, op, &[vu(&a), vu(&b)]);
+                }
+                exec(l, bits, Op::mul_alias, &[vu(&a)]);
+            }
+        });
+    }
     for bits in [128usize, 129, 192, 256, 320] {
         let sv = solved_2x2();
         let nlb = nlimbs(bits);
